@@ -12,6 +12,7 @@ import multiprocessing as mp
 from dataclasses import dataclass
 from pathlib import Path
 
+from .core import flat_stack
 from .core import AnalysisError
 from .core import Ctx
 from .model import Model
@@ -40,7 +41,7 @@ def _one(args):
     try:
         model = Model(Path(repo), {m.file: new})
         ctx = Ctx(pid, model, "quick", True)
-        mod.check(ctx)
+        flat_stack(mod.check, ctx)
     except AnalysisError as e:
         # an anchor destroyed by the mutant is a detection too (fail-closed), but weaker: report it
         return m.name, "error", str(e)
@@ -63,7 +64,7 @@ def run_mutants(pid: str, repo: Path, jobs: int = 16) -> dict:
         return res
     try:
         base = Ctx(pid, Model(Path(repo)), "quick", True)
-        mod.check(base)
+        flat_stack(mod.check, base)
         base_keys = frozenset(f.key for f in base.findings)
     except AnalysisError:
         base_keys = frozenset()
